@@ -41,7 +41,8 @@ REPORT_COUNTERS = ["fixtures", "fixtures_exhaustive_vectors", "fixtures_last_val
                    "load_diagnostics_checked"]
 TRIPWIRE_EXPECTED = ("urlopen-file",)
 
-SEP_A, SEP_B, SEP_C = "\x1e", "\x1d", "\x1f"
+# (the custom format deliberately begins with "@": a value is a value, not an argument file)
+SEP_A, SEP_B, SEP_C = "@\x1e", "\x1d", "\x1f"
 CUSTOM_FORMAT = SEP_A + "{file_name}" + SEP_B + "{error.message}" + SEP_B + "{error.validator}" + SEP_C
 PRETTY_RULE = "-----------------------------"
 
